@@ -307,7 +307,8 @@ func genFlows() *rapid.Generator[[]flowSpec] {
 				f.Headers = []kv{{K: "x-k", V: rapid.SampledFrom(headerValues).Draw(t, "hv")}}
 			}
 			if rapid.IntRange(0, 3).Draw(t, "hasQuery") == 0 {
-				f.Query = []kv{{K: "q", V: rapid.SampledFrom([]string{"1", "2"}).Draw(t, "qv")}}
+				// "" = a flag-style parameter: the key must be there, with an empty value ("?q=" or "?q")
+				f.Query = []kv{{K: "q", V: rapid.SampledFrom([]string{"1", "2", ""}).Draw(t, "qv")}}
 			}
 			if rapid.IntRange(0, 3).Draw(t, "hasStatus") == 0 {
 				f.Status = rapid.SliceOfNDistinct(rapid.SampledFrom([]int{200, 404, 500}), 1, 2, rapid.ID[int]).Draw(t, "status")
@@ -362,7 +363,7 @@ func genTxn(flows []flowSpec) *rapid.Generator[txnSpec] {
 			tx.Headers = map[string]string{"x-k": rapid.SampledFrom(append([]string{"3"}, headerValues...)).Draw(t, "hkv")}
 		}
 		if !tx.Response && rapid.IntRange(0, 1).Draw(t, "q") == 0 {
-			tx.Query = "q=" + rapid.SampledFrom([]string{"1", "2", "3"}).Draw(t, "qv")
+			tx.Query = rapid.SampledFrom([]string{"q=1", "q=2", "q=3", "q=1", "q=2", "q=", "q"}).Draw(t, "qv")
 			// further pairs next to the one the filters look at: ordinary ones, and ones a strict query parser
 			// rejects (a ';' inside a value, a stray '%') although every lenient reader still finds q
 			switch rapid.IntRange(0, 7).Draw(t, "qextra") {
@@ -375,6 +376,9 @@ func genTxn(flows []flowSpec) *rapid.Generator[txnSpec] {
 			case 3:
 				tx.Query += "&name=caf%C3%A9+au+lait&empty="
 			}
+		}
+		if !tx.Response && tx.Query == "" && rapid.IntRange(0, 3).Draw(t, "q-other") == 0 {
+			tx.Query = rapid.SampledFrom([]string{"page=2", "Q=1", "qq=1&page="}).Draw(t, "other") // a query string without the key q
 		}
 		if tx.Response {
 			tx.Status = rapid.SampledFrom([]int{200, 404, 500, 201}).Draw(t, "st")
